@@ -6,7 +6,6 @@ Record sstate := {
   s_locals : varmap value;                  (* head = innermost block *)
   s_scoped : list (N * vframe value);       (* ScopedVariables.scopes *)
   s_params : list value;                    (* function_parameters buffer *)
-  s_polls : polls;
 }.
 
 (* per-block read-only context of ExecutionContext *)
@@ -31,7 +30,6 @@ Section Strict.
   Variable fl : file.
   Variable cfg : config.
   Variable glob : globals.                  (* effective globals (after check_globals) *)
-  Variable budget : option N.               (* cancellation: the flag fails from its k-th poll on *)
   Variable regexes : list rx.
   Variable find : rx -> str -> option (list (option (N * N))).
   Variable call : ident -> graph -> list value -> res (value * graph).
@@ -40,18 +38,13 @@ Section Strict.
 
   (* ---- primitives: the only functions that touch the state ---- *)
   Definition set_graph (g : graph) : SM unit :=
-    fun s => Ok (tt, {| s_graph := g; s_locals := s_locals s; s_scoped := s_scoped s; s_params := s_params s; s_polls := s_polls s |}).
+    modify (fun s => {| s_graph := g; s_locals := s_locals s; s_scoped := s_scoped s; s_params := s_params s |}).
   Definition set_locals (l : varmap value) : SM unit :=
-    fun s => Ok (tt, {| s_graph := s_graph s; s_locals := l; s_scoped := s_scoped s; s_params := s_params s; s_polls := s_polls s |}).
+    modify (fun s => {| s_graph := s_graph s; s_locals := l; s_scoped := s_scoped s; s_params := s_params s |}).
   Definition set_scoped (sc : list (N * vframe value)) : SM unit :=
-    fun s => Ok (tt, {| s_graph := s_graph s; s_locals := s_locals s; s_scoped := sc; s_params := s_params s; s_polls := s_polls s |}).
+    modify (fun s => {| s_graph := s_graph s; s_locals := s_locals s; s_scoped := sc; s_params := s_params s |}).
   Definition set_params (p : list value) : SM unit :=
-    fun s => Ok (tt, {| s_graph := s_graph s; s_locals := s_locals s; s_scoped := s_scoped s; s_params := p; s_polls := s_polls s |}).
-
-  Definition poll (label : N) : SM unit :=
-    fun s => let '(p', cancelled) := poll_step budget label (s_polls s) in
-             if cancelled then Err (ECancelled label)
-             else Ok (tt, {| s_graph := s_graph s; s_locals := s_locals s; s_scoped := s_scoped s; s_params := s_params s; s_polls := p' |}).
+    modify (fun s => {| s_graph := s_graph s; s_locals := s_locals s; s_scoped := s_scoped s; s_params := p |}).
 
   Definition add_node : SM N :=
     s <- get_state ;; let '(g', n) := add_graph_node (s_graph s) in set_graph g' ;;; ret n.
@@ -406,17 +399,17 @@ Section Strict.
 End Strict.
 
 Definition sinit (g : graph) : sstate :=
-  {| s_graph := g; s_locals := [[]]; s_scoped := []; s_params := []; s_polls := polls0 |}.
+  {| s_graph := g; s_locals := [[]]; s_scoped := []; s_params := [] |}.
 
 (* whole run: check_globals on the nested copy, then execution *)
 Definition run_strict {rx : Type} (t : tree) (fl : file) (cfg : config) (supplied : globals) (budget : option N)
     (regexes : list rx) (find : rx -> str -> option (list (option (N * N))))
     (call : ident -> graph -> list value -> res (value * graph))
-    (fuel : nat) (matches : list (list qmatch)) (g0 : graph) : outcome exec_error sstate :=
+    (fuel : nat) (matches : list (list qmatch)) (g0 : graph) : outcome exec_error (sstate * polls) :=
   match check_globals (f_globals fl) (globals_nested supplied) with
   | Ok glob =>
-      match exec_file t fl cfg glob budget regexes find call fuel (f_stanzas fl) matches (sinit g0) with
-      | Ok (_, s) => Ok s
+      match exec_file t fl cfg glob regexes find call fuel (f_stanzas fl) matches (sinit g0) (polls0 budget) with
+      | Ok (_, s, p) => Ok (s, p)
       | Err e => Err e
       | Panic p => Panic p
       | OutOfFuel => OutOfFuel
